@@ -431,7 +431,10 @@ def main(check_modname, argv):
         'violations': len(violations),
     }
     os.makedirs(os.path.join(VERIF, 'evidence'), exist_ok=True)
-    with open(os.path.join(VERIF, 'evidence', prop + '.json'), 'w') as fo:
+    # ASN1V_EVIDENCE_DIR: write the evidence of an exploratory run (other seed, scaled-down tier) somewhere else
+    edir = os.environ.get('ASN1V_EVIDENCE_DIR') or os.path.join(VERIF, 'evidence')
+    os.makedirs(edir, exist_ok=True)
+    with open(os.path.join(edir, prop + '.json'), 'w') as fo:
         json.dump(evidence, fo, indent=1, sort_keys=True, default=str)
 
     print('%s tier=%s seed=%d cases=%d evaluations=%d distinct_nontrivial=%d known-attributed=%d '
